@@ -549,7 +549,12 @@ fn judge<T: DocElem>(ctx: &mut Ctx, transport: usize, text: &str, fields: Option
         (Class::MustReject, Err(_)) => {
             ctx.count("rejected", 1);
         }
-        (Class::MustAccept, Err(e)) => ctx.violation(tn, "deser:consistent-rejected", format!("{} doc={}: {}", T::NAME, doc(), e)),
+        (Class::MustAccept, Err(_)) => {
+            // C19 only forbids accepting inconsistent documents and panicking; refusing a consistent
+            // document is not a C19 violation (round-tripping what the crate itself writes is C18).
+            // It is counted, and a run in which nothing at all was accepted is inconclusive.
+            ctx.count("consistent_rejected", 1);
+        }
         (Class::Either, Err(_)) => {
             ctx.count("either_rejected", 1);
         }
@@ -810,9 +815,9 @@ pub fn run_c19(ctx: &mut Ctx) {
                             ctx.count("accepted", 1);
                         }
                     }
-                    Ok(Err(e)) => {
+                    Ok(Err(_)) => {
                         if text == "{\"num_cols\":0,\"num_rows\":0,\"data\":[]}" {
-                            ctx.violation(DEC[t], "deser:consistent-rejected", format!("doc={:?}: {}", text, e));
+                            ctx.count("consistent_rejected", 1);
                         } else {
                             ctx.count("rejected", 1);
                         }
